@@ -1777,6 +1777,13 @@ def fold_constants(body, enums):
         for c in ir.children(n):
             rec(c)
         if "cv" in n:
+            # a constant conditional still selects one of its operands (the rules look at which enumerator it is)
+            if n.get("k") == "Cond" and isinstance(n.get("c"), dict) and val(n["c"]) is not None:
+                pick = n.get("a") if val(n["c"]) else n.get("b")
+                if isinstance(pick, dict) and is_pure(n["c"]):
+                    keep = copy.deepcopy(pick)
+                    n.clear()
+                    n.update(keep)
             return
         k = n.get("k")
         if k == "Call" and strip_targs(callee_qn(n) or "") == "CDNS::get_map_index" and len(n.get("args", [])) == 1:
@@ -1795,6 +1802,20 @@ def fold_constants(body, enums):
                 keep = copy.deepcopy(taken) if isinstance(taken, dict) else {"k": "Null", "l": n.get("l")}
                 n.clear()
                 n.update(keep)
+        elif k == "Bin" and n.get("op") in ("&&", "||") and isinstance(n.get("lhs"), dict) and isinstance(n.get("rhs"), dict):
+            # a constant left operand decides, or drops out (`std::is_signed<T>::value && v < 0` in a template instance)
+            lv = val(n["lhs"])
+            if lv is not None:
+                decides = (n["op"] == "&&" and not lv) or (n["op"] == "||" and lv)
+                if decides:
+                    l_ = n.get("l")
+                    v_ = bool(lv)
+                    n.clear()
+                    n.update({"k": "Lit", "v": v_, "t": "bool", "cv": int(v_), "l": l_})
+                else:
+                    keep = copy.deepcopy(n["rhs"])
+                    n.clear()
+                    n.update(keep)
         elif k == "Cond":
             # a conditional whose condition became a literal is the selected branch
             cv_ = val(n.get("c")) if isinstance(n.get("c"), dict) else None
